@@ -1,0 +1,34 @@
+//! Event trace for external verification tooling.
+//! Compiled only with the `verif-hooks` cargo feature. When the environment variable
+//! `SELENE_VERIF_TRACE` names a file, one line per event is appended to it under a mutex.
+
+use std::{
+    fs::{File, OpenOptions},
+    io::Write,
+    sync::Mutex,
+};
+
+lazy_static::lazy_static! {
+    static ref TRACE: Mutex<Option<File>> = Mutex::new(
+        std::env::var_os("SELENE_VERIF_TRACE").and_then(|path| {
+            OpenOptions::new().create(true).append(true).open(path).ok()
+        })
+    );
+}
+
+pub fn event(text: &str) {
+    if let Ok(mut guard) = TRACE.lock() {
+        if let Some(file) = guard.as_mut() {
+            let _ = writeln!(file, "{:?} {}", std::thread::current().id(), text);
+        }
+    }
+}
+
+/// Logs `text` when dropped.
+pub struct OnDrop(pub String);
+
+impl Drop for OnDrop {
+    fn drop(&mut self) {
+        event(&self.0);
+    }
+}
